@@ -438,7 +438,8 @@ pub fn gen_energy(r: &mut Rng, w: &mut World) {
             adjustment: if r.chance(0.5) { Some(many_digits(r, 1.0, 1.5)) } else { None },
         });
     }
-    w.traversal = Traversal::Energy { speed_unit: "kilometers_per_hour".into(), grade_unit: "decimal".into(), vehicles };
+    let grade_unit = r.pick(&["decimal", "decimal", "percent", "millis"]).to_string();
+    w.traversal = Traversal::Energy { speed_unit: "kilometers_per_hour".into(), grade_unit, vehicles };
     w.weights = vec![
         ("distance".into(), many_digits(r, 0.1, 1.0)),
         ("time".into(), many_digits(r, 0.1, 1.0)),
